@@ -255,6 +255,13 @@ func vfInviteJoinScript(ctx context.Context, js map[string]*vfJoiner, sc vfScrip
 			"grew": j.ms.OpLog().Len() - pre}
 		if err == nil {
 			j.observeIdentity(ctx, g, ev)
+		} else {
+			// a node may compute the identity it would use for a group object before (or although) the join is
+			// refused; whatever that lookup caches must not leak into a later, valid join of the same identifier
+			func() {
+				defer func() { _ = recover() }()
+				_, _ = j.ss.GetOwnMemberDeviceForGroup(g)
+			}()
 		}
 		out = append(out, ev)
 	}
